@@ -126,8 +126,9 @@ func runC17(r *Run) {
 	}
 	// the same over the real handler and both real transports, several tunnels of one client at once
 	r.TierRan("api")
-	for s := 0; s < 4; s++ {
-		cfg := &gwCfg{token: s&1 != 0, sc: s&2 != 0}
+	for s := 0; s < 8; s++ {
+		// with and without an idle timeout configured (caps.idletimeout): negotiation does not depend on it
+		cfg := &gwCfg{token: s&1 != 0, sc: s&2 != 0, idle: (s >> 2) * 30}
 		caps := 0
 		if cfg.sc {
 			caps |= 1
@@ -142,7 +143,7 @@ func runC17(r *Run) {
 				want := (caps == 0 && client == 0) || caps&client != 0
 				pkt := mkPacket(tHandshake, bodyHandshake(3, 9, 0, client))
 				res := c17First(kind, gws, pkt, "X-Forwarded-For: 192.0.2.10\r\n")
-				r.Count(fmt.Sprintf("api:%s:%d:%d", kind, caps, client))
+				r.Count(fmt.Sprintf("api:%s:%d:%d:%d", kind, caps, client, cfg.idle))
 				r.Dist("api:" + kind)
 				if res.inconclusive != "" {
 					failedOpen++
@@ -155,7 +156,7 @@ func runC17(r *Run) {
 					continue
 				}
 				opened++
-				rep := fmt.Sprintf("transport %s over the real handler; server caps %d, client ext auth %d\nresponses: %s ended=%v\n", kind, caps, client, pktsCanon(res.pkts), res.ended)
+				rep := fmt.Sprintf("transport %s over the real handler; server caps %d, idle timeout %d min, client ext auth %d\nresponses: %s ended=%v\n", kind, caps, cfg.idle, client, pktsCanon(res.pkts), res.ended)
 				if len(res.pkts) != 1 || len(res.pkts[0]) < 18 || res.pkts[0][0] != 2 {
 					if kind == "legacy" && len(res.pkts) == 0 && !res.ended {
 						r.Inconclusive() // the IN handler's Drain took the handshake
